@@ -138,7 +138,9 @@ func c52Run(sc c52Scenario, id int, tr *vlib.Trace) {
 		panic(err)
 	}
 	w := wc.(*conn)
-	pl, oh := w.payloadLengthLimit, w.overhead
+	// the limits of the property, computed from the negotiated frame size (not read from the conn)
+	oh := 4 + 4 + 16
+	pl := max(4096, sc.Frame) - oh
 	reset := map[string]any{"ev": "reset", "b": id, "pl": pl, "oh": oh, "frame": sc.Frame, "proto": sc.Proto, "left": -1}
 	if sc.Left > 0 {
 		// position the writer's counter sc.Left seals before its overflow
@@ -239,11 +241,22 @@ func c52Run(sc c52Scenario, id int, tr *vlib.Trace) {
 				data[i] = byte((written + i) % 251)
 			}
 			before := len(out.wire)
-			ret, err := w.Write(data)
+			var ret int
+			var err error
+			pan := ""
+			func() {
+				defer func() {
+					if x := recover(); x != nil {
+						pan = fmt.Sprint(x)
+						err = fmt.Errorf("panic")
+					}
+				}()
+				ret, err = w.Write(data)
+			}()
 			if err == nil {
 				written += n
 			}
-			tr.Emit(map[string]any{"ev": "write", "w": n, "ret": ret, "err": err != nil, "recs": c52Records(out.wire[before:])})
+			tr.Emit(map[string]any{"ev": "write", "w": n, "ret": ret, "err": err != nil, "panic": pan, "recs": c52Records(out.wire[before:])})
 		case "adv":
 			recs := c52Records(out.wire)
 			offs := make([]int, len(recs)+1)
